@@ -776,6 +776,12 @@ func markerSettings(m string) []erpc.MessageSetting {
 
 const opTimeout = 30 * time.Second
 
+// status codes given to the two plug-in instances
+const (
+	codeA int32 = 100171
+	codeB int32 = 100172
+)
+
 func runCell(id string, c Cell, seedv int64) {
 	r := core.NewRand(seedv, int64(c.Idx), 17)
 	p := protos.ByName(c.Proto)
@@ -784,8 +790,8 @@ func runCell(id string, c Cell, seedv int64) {
 	equalKeys := ka == kb
 
 	// the observer comes after the secure plug-in, so it sees what is handed to the protocol
-	plA := []erpc.Plugin{secure.NewPlugin(100171, ka), observer{}}
-	plB := []erpc.Plugin{secure.NewPlugin(100172, kb), observer{}}
+	plA := []erpc.Plugin{secure.NewPlugin(codeA, ka), observer{}}
+	plB := []erpc.Plugin{secure.NewPlugin(codeB, kb), observer{}}
 	var pa, pb2 erpc.Peer
 	var rt routes
 	switch {
@@ -1159,8 +1165,9 @@ func (cr *cellRun) checkCall(rec *opRec, cmd erpc.CallCmd, equalKeys bool) {
 			cr.unsure("call", op, "request not delivered, but "+ex, base())
 			return
 		}
-		if runs == 0 && rec.outErr["call"] == "" && len(rec.reqFrame) == 0 {
-			cr.unsure("call", op, "request was never written: "+stat.String(), base())
+		if runs == 0 && len(rec.reqFrame) == 0 && stat.Code() != codeA && stat.Code() != codeB {
+			// nothing reached the wire and it was not the plug-in that refused (e.g. connection gone)
+			cr.unsure("call", op, "request was never written: "+statusText(stat), base())
 			return
 		}
 		cr.violate("call", op, sym, fmt.Sprintf("%s request: the handler ran %d time(s) instead of once; caller status %s", cl, runs, statusText(stat)), base())
